@@ -185,7 +185,8 @@ def campaign(c):
                 if rf is not None:
                     from ..gen import join_lines
                     joined = join_lines(src, r, (2, 3)).decode('utf-8')
-                    for what, txt in (('reflow', rf), ('reflow+edits', variants(r, rf)), ('reflow+blank-lines', '\n\n'.join(rf.split('\n'))), ('joined-lines', joined)):
+                    for what, txt in (('reflow', rf), ('reflow+edits', variants(r, rf)), ('reflow+blank-lines', '\n\n'.join(rf.split('\n'))), ('joined-lines', joined),
+                                      ('no-final-newline', src.decode('utf-8').rstrip('\n')), ('crlf', src.decode('utf-8').replace('\n', '\r\n'))):
                         if what == 'reflow+edits':
                             im3, mo3 = progdiff.run_both(c, txt.encode('utf-8'))
                             progdiff.compare(c, txt.encode('utf-8'), im3, mo3, 'layout-variant')
@@ -267,6 +268,22 @@ def campaign(c):
             if res[nme] != alone[nme]:
                 c.violation('det:batch-state', 'the output of %s.rsyn depends on the files compiled before it in the same invocation (%s)' % (nme, order), dict(src=files[nme].decode()))
         c.case(('batch-state', tuple(order)), dict(kind='batch-state', order=order))
+    # a file that fails at every stage and in every state of its front end (mid-statement, a string literal pending in the
+    # lexer, a statement half parsed, an interpreter error with more tokens buffered), followed by good files: each good file
+    # must come out exactly as when it is compiled alone
+    from .. import batch
+    goodsrc = b'import eth;\neth::frame("|000000000001|", "|000000000002|", "a" "b"\n "c");\n'
+    alone = batch.run_real([dict(stem='g', src=goodsrc)])
+    for j, bad in enumerate([b'x("a"\n@\n', b'import eth;\neth::frame("|00|",\n"abc"\n@);\n', b'import eth;\neth::frame("|00|", "|00|"); x("lit"\n);\n', b'let a = (\n', b'f(1,\n',
+                             b'import eth;\nlet z = eth::frame("|000000000001|", "|000000000002|",\n"pending"\n', b'"only a literal"\n\xff\n', b'let s = "q"\n"r"\nnosuch;\n',
+                             b'import nosuch;\n', b'let a = 1; let a = 2; "x"\n']):
+        for order in ([dict(stem='bad', src=bad), dict(stem='g', src=goodsrc), dict(stem='g2', src=goodsrc)], [dict(stem='g', src=goodsrc), dict(stem='bad', src=bad), dict(stem='g2', src=goodsrc)]):
+            impl, model = batch.compare(c, order, what='batch-after-failure')
+            for nme in ('g', 'g2'):
+                if impl['dir'].get(nme) != alone['dir'].get('g'):
+                    c.violation('det:batch-after-failure', 'a file compiled after a failing one differs from the same file compiled alone (failing member %d: %r)' % (j, bad[:40]),
+                                dict(src=goodsrc.decode(), bad=bad.decode('utf-8', 'replace'), out=impl['stdout'][-300:]))
+        c.case(('after-failure', j), dict(kind='batch-after-failure', bad=bad.decode('utf-8', 'replace')))
     # batches: same files together, in two orders, with failing members
     names = list(progs)
     for b in range(6 if c.quick else 60):
